@@ -103,6 +103,14 @@ template <class BF, int FB, int NB> static void static_ref_check(u64 background,
         VCHECK(static_cast<u64>(r.get()) == v, "static channel reference does not read back the value written", FB, NB, v);
         VCHECK(static_cast<BF>((data ^ before) & static_cast<BF>(~mask)) == 0, "static channel reference write changed bits outside its range", FB, NB, v, u64(before), u64(data));
         VCHECK(static_cast<u64>((data & mask) >> FB) == v, "static channel reference stored the value at the wrong place", FB, NB, v);
+        {
+            // the same bits through the CONST reference type (its own get()), built from the address and from the mutable reference
+            using cref_t = gil::packed_channel_reference<BF, FB, NB, false> const;
+            cref_t c1(&data);
+            cref_t c2(r);
+            VCHECK(static_cast<u64>(c1.get()) == v && static_cast<u64>(c2.get()) == v, "const static channel reference reads", u64(c1.get()), u64(c2.get()), "but the mutable one wrote", v, FB, NB);
+            VCHECK(static_cast<u64>(static_cast<typename cref_t::integer_t>(c1)) == v, "const static channel reference converts to a different value", FB, NB, v);
+        }
         // arithmetic on the proxy, modulo 2^bits
         BF d2 = static_cast<BF>(background);
         ref_t q(&d2);
@@ -133,6 +141,16 @@ template <class BF, int NB> static void dynamic_ref_check(u64 background, unsign
         put_bits(model, 64 + fb, NB, v);
         expect_same(win, model, 24, "dynamic channel reference write");
         VCHECK(static_cast<u64>(r.get()) == v, "dynamic channel reference does not read back", fb, NB, v);
+        {
+            // the same bits through the CONST run-time-offset reference (its own get()), from the address and from the mutable reference
+            using cref_t = gil::packed_dynamic_channel_reference<BF, NB, false> const;
+            cref_t c1(win + 8, fb);
+            cref_t c2(r);
+            VCHECK(static_cast<u64>(c1.get()) == v && static_cast<u64>(c2.get()) == v, "const dynamic channel reference reads", u64(c1.get()), u64(c2.get()), "but the mutable one wrote", v, "first bit", fb, "bits", NB);
+            VCHECK(static_cast<u64>(static_cast<typename cref_t::integer_t>(c1)) == v, "const dynamic channel reference converts to a different value", fb, NB, v);
+            VCHECK(c1.first_bit() == fb && c2.first_bit() == fb, "const dynamic channel reference reports a different first bit");
+            expect_same(win, model, 24, "reading through a const dynamic channel reference");
+        }
         ref_t other(win + 8, fb);
         r = other; // self-typed assignment keeps the value
         expect_same(win, model, 24, "dynamic channel reference self assignment");
@@ -365,6 +383,34 @@ template <class Img> struct BAOps
             VCHECK(gil::equal_pixels(sv, dv), "equal_pixels false after copy_pixels (bit-aligned)");
             break;
         }
+        }
+        // after any operation: every channel of every pixel, read through the mutable reference, through the CONST reference
+        // (const iterator built from the address, and converted from the mutable iterator) and through a copied value, is the
+        // model's bit field -- channels that straddle a byte boundary included
+        {
+            using cview_t = typename view_t::const_t;
+            using cit_t = typename cview_t::x_iterator;
+            using cref_t = typename cview_t::reference;
+            cit_t cbegin(static_cast<unsigned char const*>(buf.data()), offset);
+            cit_t cconv(begin);
+            for (int t = 0; t < npix; ++t)
+            {
+                ref_t mr = begin[t];
+                cref_t cr = cbegin[t];
+                cref_t cr2 = cconv[t];
+                cref_t cr3(mr);
+                value_t val(cr);
+                mp::mp_for_each<mp::mp_iota_c<NC>>([&](auto K) {
+                    constexpr int k = decltype(K)::value;
+                    u64 want = get_bits(model.data(), pix_bit(t) + ch_first(k), sz[static_cast<std::size_t>(k)]);
+                    u64 m = static_cast<u64>(gil::at_c<k>(mr)), c1 = static_cast<u64>(gil::at_c<k>(cr)), c2 = static_cast<u64>(gil::at_c<k>(cr2)), c3 = static_cast<u64>(gil::at_c<k>(cr3)), vv = static_cast<u64>(gil::at_c<k>(val));
+                    VCHECK(m == want, "bit-aligned channel read through the mutable reference differs from the stored bits", t, k, m, want);
+                    VCHECK(c1 == want && c2 == want && c3 == want, "bit-aligned channel read through the const reference differs from the stored bits: pixel", t, "channel", k, "const reads", c1, c2, c3, "stored", want);
+                    VCHECK(vv == want, "value copied from a const bit-aligned reference differs from the stored bits", t, k, vv, want);
+                });
+                VCHECK(cr == mr && !(cr != mr), "const and mutable bit-aligned references to the same pixel compare unequal", t);
+            }
+            expect_same(buf.data(), model.data(), nbytes, "reading through const bit-aligned references");
         }
     }
 
